@@ -741,6 +741,38 @@ func (g *gen) build(name string, params map[string]any) *hx.Case {
 	return c
 }
 
+// readFault: writes that live only in the WAL at the checkpoint (some of them behind a completed flush, so that the reader's skip
+// loop runs too), the source crashes, and the checkpoint is restored with ONE failing storage read of the WAL - five consecutive
+// read positions in turn (an entry is 4 or 6 reads: one of them is the sequence-number read of an entry boundary) - and finally
+// without a fault. Every faulted restore must fail or be exact; the retry must be exact.
+func (g *gen) readFault() {
+	if g.r.Bool() {
+		g.writes(0, 1+g.r.Intn(3))
+		g.big(0)
+		g.add(opJ{Op: "drain", DB: 0})
+	}
+	g.writes(0, 3+g.r.Intn(6))
+	if g.r.Chance(1, 3) {
+		g.big(0) // a sealed memtable whose flush task stays parked
+		g.writes(0, 1+g.r.Intn(3))
+	}
+	id := g.ckpt(0)
+	g.add(opJ{Op: "step", DB: 0, Task: "ckpt", ID: id}) // the asynchronous part of the checkpoint: WAL save,
+	g.add(opJ{Op: "step", DB: 0, Task: "ckpt", ID: id}) // list save
+	if g.r.Bool() {
+		g.writes(0, 1+g.r.Intn(2)) // the source goes on: these writes are not part of the checkpoint
+	}
+	g.add(opJ{Op: "crash", DB: 0})
+	p := 1 + g.r.Intn(1000)
+	for i := 0; i < 5; i++ {
+		g.add(opJ{Op: "restore", ID: id, Same: false, Fail: p + i})
+		g.ndb++
+	}
+	g.add(opJ{Op: "restore", ID: id})
+	g.ndb++
+	g.add(opJ{Op: "read", DB: g.ndb - 1})
+}
+
 func (eng) Generate(mode, tier string, r *hx.Rand) []*hx.Case {
 	n := 90
 	if tier == "thorough" {
@@ -785,6 +817,15 @@ func (eng) Generate(mode, tier string, r *hx.Rand) []*hx.Case {
 			g.scaleInPlace()
 		}
 		out = append(out, g.build(fmt.Sprintf("%s-%s-%d", mode, kind, i), params))
+	}
+	// further cases, generated after the ones above so that those stay what they were: storage read faults during the replay
+	if mode == "c08" {
+		for i := 0; i < n/9; i++ {
+			g := &gen{r: r.Fork(), ndb: 1, kgs: 4}
+			params := map[string]any{"mode": mode, "mem": hx.Pick(g.r, []int{45, 60, 60, 90}), "wal": hx.Pick(g.r, []int{1000, 1000, 70}), "tfs": hx.Pick(g.r, []int{60, 80, 200})}
+			g.readFault()
+			out = append(out, g.build(fmt.Sprintf("%s-readfault-%d", mode, n+i), params))
+		}
 	}
 	return out
 }
